@@ -100,7 +100,9 @@ struct inner_product_impl< Eigen::Matrix<T, N, 1> >
 {
     typedef T return_type;
     static T get(const Eigen::Matrix<T, N, 1> &x, const Eigen::Matrix<T, N, 1> &y) {
-        return x.adjoint() * y;
+        // sum_i x_i * conj(y_i): conjugate-linear in the second argument,
+        // as for static_matrix and std::complex.
+        return y.adjoint() * x;
     }
 };
 
@@ -111,7 +113,8 @@ struct inner_product_impl< Eigen::Matrix<T, N, M> >
     typedef Eigen::Matrix<T, M, M> return_type;
 
     static return_type get(const Eigen::Matrix<T, N, M> &x, const Eigen::Matrix<T, N, M> &y) {
-        return x.adjoint() * y;
+        // p(i,j) = sum_k x(k,i) * conj(y(k,j)), as for static_matrix.
+        return x.transpose() * y.conjugate();
     }
 };
 
